@@ -160,13 +160,15 @@ theorem reabsorbReplaceKeeps : ReabsorbReplaceKeeps R RE E := by
     obtain ⟨u, hu⟩ := (mem_solverList' _ h.nodup j).mp hj
     exact (h.map u j hu).1
   -- a model of everything: the constraints without variables of `m` are true
-  obtain ⟨a0, ha0, _⟩ := children_joint_model H.reg h [] (fun _ => 0) s.c.solverList (solverList_nodup _)
-    (fun _ hj => hj) (fun _ _ _ _ hk => (by cases hk)) hsat
+  have hinL : ∀ j ∈ s.c.solversFor (s.child m).variables, j ∈ s.c.solverList := by
+    intro j hj
+    obtain ⟨n, _, hn⟩ := (mem_solversFor _ _ _).mp hj
+    exact (mem_solverList' _ h.nodup j).mpr ⟨n, hn⟩
+  obtain ⟨a0, ha0, _⟩ := children_joint_model H.reg h [] (fun _ => 0) (s.c.solversFor (s.child m).variables)
+    (solversFor_nodup _ _) hinL (fun _ _ _ _ hk => (by cases hk)) hsat
   have hm0 : Models (s.child m).constraints a0 := by
     refine (h.child_models hm a0).mpr ((hsem a0).mpr fun t' ht' => ?_)
-    obtain ⟨n, _, hn⟩ := (mem_solversFor _ _ _).mp ht'
-    have htl : t' ∈ s.c.solverList := (mem_solverList' _ h.nodup t').mpr ⟨n, hn⟩
-    exact (h.child_models (hltL t' htl) a0).mp (ha0 t' htl)
+    exact (h.child_models (hltL t' (hinL t' ht')) a0).mp (ha0 t' ht')
   have htriv : ∀ a, ∀ c ∈ (s.child m).constraints, c.vars = [] → c.sem a = true := by
     intro a c hc hcv
     have hcw : ConWf c := H.reg.wf c (hsi.base.dinv.consR c hc)
